@@ -2,6 +2,10 @@ module verif/harness
 
 go 1.23
 
+// mosdns itself is built from a module that says "go 1.22.0": its binary runs with the GODEBUG defaults of
+// Go 1.22 (e.g. asynctimerchan=1, the pre-1.23 timer channels). The harness binaries must behave the same.
+godebug default=go1.22
+
 require (
 	github.com/IrineSistiana/mosdns/v5 v5.0.0
 	github.com/miekg/dns v1.1.62
